@@ -74,6 +74,14 @@ Theorem profile_emitted_once : forall (A : Type) (over : bool) (pd : A), emitted
 Proof. exact @emitted_once. Qed.
 Print Assumptions profile_emitted_once.
 
+(* ProcessRequest does not modify its request: whatever the number of failed inserts before the accepted
+   one, every block handed to the ClickHouse client for a profile request is exactly that request's row
+   (the harness compares the blocks of failed and accepted attempts of the real service with the parser output) *)
+Theorem process_request_idempotent : forall (A : Type) (fails : nat) (pd : A),
+  length (push_with_retry fails pd) = S fails /\ Forall (eq [pd]) (push_with_retry fails pd).
+Proof. exact @push_with_retry_blocks. Qed.
+Print Assumptions process_request_idempotent.
+
 (* ------------------------------------------------------------------------------------------------
    merge_is_sum.  Tree.MergeTrie on a fresh tree, for ANY list of int64 rows (any order, duplicates,
    several profiles mixed) not longer than the node limit: the node of key (parent id, node id) exists
